@@ -128,8 +128,27 @@ def np_sqrt(x):
     return v
 
 
+_AXIOM_CACHE = {}
+
+
 def axiom_instances(formulas):
-    """instances of the axioms of the axiomatised theory functions (sqrt) at every application occurring in the formulas"""
+    """instances of the axioms of the axiomatised theory functions (sqrt, rounding) at every application occurring in the
+    formulas (memoised per top-level formula: the path condition is shared by the obligations of a path)"""
+    from .values import tid
+
+    out, have = [], set()
+    for f in formulas:
+        k = tid(f)
+        if k not in _AXIOM_CACHE:
+            _AXIOM_CACHE[k] = _axiom_instances1([f])
+        for a in _AXIOM_CACHE[k]:
+            if a.get_id() not in have:
+                have.add(a.get_id())
+                out.append(a)
+    return out
+
+
+def _axiom_instances1(formulas):
     seen, out, stack = set(), [], list(formulas)
     while stack:
         t = stack.pop()
@@ -284,7 +303,28 @@ def np_asarray(x, *a, **k):
         return V(x.t, x.axes, None, x.nan, x.inf)
     if hasattr(x, "as_v"):
         return x.as_v()
+    if isinstance(x, (list, tuple)) and all(isinstance(e, str) for e in x):
+        from .colwise import StrArray
+
+        return StrArray(x)
     raise Undecided("np.asarray of a python container")
+
+
+class UniqueVals:
+    """Series.unique(): `x in s.unique()`  <=>  some row holds x (a boolean symbol with Skolem witness)"""
+
+    def __init__(self, v):
+        self.v = v
+
+    def pyvc_contains(self, interp, x):
+        from . import sums
+
+        v = self.v
+        hit = v == x
+        t = hit.t if v.nan is None else z3.And(z3.Not(v.nan), hit.t)
+        r = sums.reduce_anyall(interp, V(t, v.axes), None, "any")
+        interp.__dict__.setdefault("unique_tests", []).append((x, r))
+        return r
 
 
 class SeqLen:
@@ -656,6 +696,18 @@ def v_getattr(interp, v, name):
             return V(z3.If(v.nan, vt, ct), v.axes, v.series, None, v.inf)
 
         return fillna
+    if name == "unique":
+        _use("Series.unique(): the set of values that occur (only membership tests are modelled)")
+        return lambda: UniqueVals(v)
+    if name == "where":
+
+        def where(cond, other=float("nan"), **kw):
+            _use("Series.where(cond, other): the value where cond holds, `other` elsewhere")
+            if kw:
+                raise Undecided("Series.where options")
+            return np_where(cond, v, other)
+
+        return where
     raise Undecided(f"attribute .{name} of a symbolic array has no theory entry")
 
 
@@ -1016,6 +1068,8 @@ def numpy_table(interp):
         "quantile": make_np_quantile(interp),
         "nan": float("nan"),
         "inf": float("inf"),
+        "int64": py_int,
+        "float64": py_float,
     }
     t.update(make_reductions(interp))
     return t
